@@ -685,8 +685,11 @@ func c5points(r *gen.Rng, lo, hi *big.Int, n int) []*big.Int {
 	var pts []*big.Int
 	for i := 0; i < n*3 && len(pts) < n; i++ {
 		p := c5bigRand(r, rlo, rhi)
-		if r.Chance(1, 8) {
-			p = new(big.Int).Set(gen.Pick(r, []*big.Int{lo, hi, rlo, rhi}))
+		if r.Chance(1, 5) {
+			p = new(big.Int).Set(gen.Pick(r, []*big.Int{lo, hi, rlo, rhi, big.NewInt(0)}))
+			if p.Cmp(lo) < 0 || p.Cmp(hi) > 0 {
+				p = new(big.Int).Set(lo)
+			}
 		}
 		if !seen[p.String()] {
 			seen[p.String()] = true
@@ -888,6 +891,71 @@ func c5genType(r *gen.Rng) *c5type {
 	return t
 }
 
+// ---- fixed edge types included in every run ---------------------------------------------------
+
+func c5n(dec string) c5bound { // "12", "-0.5", "min", "max"
+	switch dec {
+	case "min":
+		return c5bound{kw: 1}
+	case "max":
+		return c5bound{kw: 2}
+	}
+	k := 0
+	if i := strings.IndexByte(dec, '.'); i >= 0 {
+		k = len(dec) - i - 1
+		dec = dec[:i] + dec[i+1:]
+	}
+	m, _ := new(big.Int).SetString(dec, 10)
+	return c5bound{m: m, k: k}
+}
+
+// "a..b" or "a"
+func c5a(parts ...string) []c5alt {
+	var out []c5alt
+	for _, p := range parts {
+		if i := strings.Index(p, ".."); i >= 0 {
+			out = append(out, c5alt{lo: c5n(p[:i]), hi: c5n(p[i+2:])})
+		} else {
+			out = append(out, c5alt{lo: c5n(p), hi: c5n(p), single: true})
+		}
+	}
+	return out
+}
+
+func c5fixedTypes() []*c5type {
+	rg := func(alts ...[]c5alt) []c5level {
+		ls := make([]c5level, len(alts))
+		for i, a := range alts {
+			ls[i].rng = a
+		}
+		return ls
+	}
+	ln := func(alts ...[]c5alt) []c5level {
+		ls := make([]c5level, len(alts))
+		for i, a := range alts {
+			ls[i].length = a
+		}
+		return ls
+	}
+	return []*c5type{
+		{base: "uint64", levels: rg(c5a("0", "5..max"))},
+		{base: "uint64", levels: rg(c5a("min..0", "18446744073709551615"))},
+		{base: "uint64", levels: rg(c5a("-5..10"), c5a("0..9223372036854775808"))},
+		{base: "uint64", isList: true, levels: rg(c5a("0..1", "9223372036854775807..9223372036854775808"))},
+		{base: "int32", levels: rg(c5a("0..9223372036854775808"), nil, c5a("min..100"))},
+		{base: "int64", levels: rg(c5a("min..-9223372036854775807", "0", "9223372036854775807"))},
+		{base: "int64", levels: rg(c5a("-9223372036854775808", "9223372036854775806..max"))},
+		{base: "int8", levels: rg(c5a("-5.0..10.0", "20.00"))},
+		{base: "uint8", levels: rg(c5a("1..10"), c5a("0..100"))},
+		{base: "int16", isList: true, levels: rg(c5a("1..10", "40..60"))},
+		{base: "decimal64", fd: 2, levels: rg(c5a("-0.01..0.01", "1.5", "2..max"))},
+		{base: "decimal64", fd: 1, levels: rg(c5a("min..-1", "0.0..0.5"), c5a("-3.5..0.4"))},
+		{base: "string", levels: ln(c5a("0", "2..3", "10..max"))},
+		{base: "string", levels: ln(c5a("3..5"), c5a("2..8"), c5a("min..10"))},
+		{base: "string", isList: true, levels: ln(c5a("1..2"))},
+	}
+}
+
 func c5strOfLen(r *gen.Rng, n int) string {
 	var b strings.Builder
 	for i := 0; i < n; i++ {
@@ -950,6 +1018,8 @@ func c5scalars(r *gen.Rng, t *c5type) []c5scalar {
 						for d := int64(-1); d <= 1; d++ {
 							if n := b.m.Int64() + d; n >= 0 && n < 40 {
 								add(c5scalar{kind: "str", s: c5strOfLen(r, int(n))})
+								// the same number of characters, all multi-byte / all ASCII
+								add(c5scalar{kind: "str", s: strings.Repeat(gen.Pick(r, []string{"é", "€", "😀", "a", "z"}), int(n))})
 							}
 						}
 					}
@@ -990,8 +1060,12 @@ func c5scalars(r *gen.Rng, t *c5type) []c5scalar {
 			for _, a := range l.rng {
 				for _, b := range []c5bound{a.lo, a.hi} {
 					if b.kw == 0 {
+						q := new(big.Int).Set(b.m)
+						for i := 0; i < b.k; i++ {
+							q.Quo(q, big.NewInt(10))
+						}
 						for d := int64(-1); d <= 1; d++ {
-							add(c5scalar{kind: "num", z: new(big.Int).Add(b.m, big.NewInt(d))})
+							add(c5scalar{kind: "num", z: new(big.Int).Add(q, big.NewInt(d))})
 						}
 					}
 				}
@@ -1070,14 +1144,29 @@ func C05(ctx *core.Ctx) error {
 	ctx.Imports = "Restrict.RangeParse Restrict.Model Restrict.Spec Check.C05Check"
 	ctx.Rule = "one case per generated type (leaf or leaf-list, typedef chain depth 0-3, restriction expressions printed from generated syntax); rows = candidate values (every bound and its neighbours, type extremes and one beyond, random) x write paths " + strings.Join(c5pathNames, ", ") + "; distinct = by SHA-256 of the case term; non-trivial = the module loaded and at least one value was written, or the expression was invalid on purpose"
 	r := gen.New(ctx.Seed)
-	nTypes := ctx.Scale(48, 600)
+	nTypes := ctx.Scale(40, 600)
 	if ctx.Tier == "search" {
 		nTypes = 960
 	}
-	maxVals := 12
-	for ti := 0; ti < nTypes; ti++ {
+	maxVals := 14
+	fixed := c5fixedTypes()
+	for ti := 0; ti < nTypes+len(fixed); ti++ {
 		tr := r.Fork(uint64(ti) + 1)
-		t := c5genType(tr)
+		var t *c5type
+		if ti < len(fixed) {
+			t = fixed[ti]
+			for i := range t.levels {
+				if t.levels[i].rng != nil {
+					t.levels[i].rngTxt = c5exprText(tr, t.levels[i].rng)
+				}
+				if t.levels[i].length != nil {
+					t.levels[i].lenTxt = c5exprText(tr, t.levels[i].length)
+				}
+			}
+			ctx.Count("fixed-edge-types")
+		} else {
+			t = c5genType(tr)
+		}
 		y := t.yang()
 		var m *meta.Module
 		var loadErr error
